@@ -84,6 +84,10 @@ def minmax_scale(vals: np.ndarray,
         max_val = np.nanmax(vals)
 
     if mode == 'do':
+        if max_val == min_val:
+            # Degenerate interval (identical values and no minimum range): avoid 0/0 = NaN, that
+            # would silently turn valid values into invalid ones.
+            return vals-min_val
         return (vals-min_val)/(max_val-min_val)
 
     if mode == 'undo':
